@@ -3,6 +3,7 @@
 From Coq Require Import ZArith NArith List Bool Lia ZifyBool ZifyN.
 From RecordUpdate Require Import RecordSet.
 From PSO Require Import Raft.Types Raft.Node Raft.Net Raft.ProofsApplyBase Raft.ProofsApply.
+From PSO Require Raft.ProofsCommitBase Raft.ProofsCommit.
 Import ListNotations.
 Import RecordSetNotations.
 Open Scope N_scope.
@@ -257,67 +258,38 @@ Theorem load_dump_installs : forall (e : env) (clear : bool) (s : S) (sn : snaps
   let s' := load_dump e clear s in
   hist (nd s') = s_hist sn /\ enabled_ver (nd s') = s_ver sn /\ applied (nd s') = eidx (s_e1 sn) /\
   self_ver (nd s') = self_ver (nd s) /\ commit (nd s') = commit (nd s) /\
-  (clear = true -> log (nd s') = [s_e0 sn; s_e1 sn]) /\
+  (* the log keeps its entries from the dump's position on when it holds the dump's two entries *)
+  log (nd s') = (if ProofsCommit.snap_kept sn (log (nd s))
+                 then delete_to (log (nd s)) (eidx (s_e0 sn)) else [s_e0 sn; s_e1 sn]) /\
   (* in every case the log now starts with (entries equal to) e0, e1 or is exactly [e0; e1] *)
   (log (nd s') = [s_e0 sn; s_e1 sn] \/
    exists a b r, log (nd s') = a :: b :: r /\ entry_eqb a (s_e0 sn) = true /\ entry_eqb b (s_e1 sn) = true /\
                  exists pre, log (nd s) = pre ++ a :: b :: r).
 Proof.
-  intros e clear s sn ST V AH. cbn zeta. unfold load_dump. rewrite ST.
+  intros e clear s sn ST V AH. cbn zeta.
   assert (HB : clear && (eidx (s_e1 sn) <=? applied (nd s)) = false).
   { destruct clear; [|reflexivity]. specialize (AH eq_refl). cbn. apply N.leb_gt. exact AH. }
-  rewrite HB.
-  destruct (self_ver (nd s) <? s_ver sn) eqn:E; [lia|].
-  set (s1 := upd (fun n => n <| hist := s_hist sn |> <| enabled_ver := s_ver sn |>) s).
-  set (s2 := if clear then s1 else _).
-  assert (P2 : hist (nd s2) = s_hist sn /\ enabled_ver (nd s2) = s_ver sn /\ self_ver (nd s2) = self_ver (nd s) /\
-               commit (nd s2) = commit (nd s) /\ others (nd s2) = others (nd s) /\ self (nd s2) = self (nd s) /\
-               (clear = true -> log (nd s2) = log (nd s)) /\
-               exists pre, log (nd s) = pre ++ log (nd s2)).
-  { unfold s2. destruct clear.
-    - repeat split; auto. now exists [].
-    - assert (D : hist (nd s1) = s_hist sn /\ enabled_ver (nd s1) = s_ver sn /\ self_ver (nd s1) = self_ver (nd s) /\
-               commit (nd s1) = commit (nd s) /\ others (nd s1) = others (nd s) /\ self (nd s1) = self (nd s) /\
-               (false = true -> log (nd s1) = log (nd s)) /\ exists pre, log (nd s) = pre ++ log (nd s1)).
-      { repeat split; auto. now exists []. }
-      destruct (get_entries (log (nd s1)) (Some (eidx (s_e0 sn))) (Some 2) None) as [|a [|b [|c r]]]; auto.
-      destruct (entry_eqb a (s_e0 sn) && entry_eqb b (s_e1 sn)); auto.
-      repeat split; auto; try discriminate.
-      cbn. unfold delete_to. destruct (eidx (s_e0 sn) <? first_idx (log (nd s))). + now exists [].
-      + exists (firstn (N.to_nat (eidx (s_e0 sn) - first_idx (log (nd s)))) (log (nd s))).
-        now rewrite firstn_skipn. }
-  destruct P2 as (H1 & H2 & H3 & H4 & H5 & H6 & H7 & (pre & H8)).
-  set (keep := match log (nd s2) with a :: b :: _ => _ | _ => false end).
-  set (s3 := if clear || negb keep then upd _ s2 else s2).
-  set (s4 := upd (fun n => n <| applied := eidx (s_e1 sn) |>) s3).
-  assert (P4 : hist (nd s4) = s_hist sn /\ enabled_ver (nd s4) = s_ver sn /\ applied (nd s4) = eidx (s_e1 sn) /\
-               self_ver (nd s4) = self_ver (nd s) /\ commit (nd s4) = commit (nd s) /\
-               (clear = true -> log (nd s4) = [s_e0 sn; s_e1 sn]) /\
-               (log (nd s4) = [s_e0 sn; s_e1 sn] \/
-                exists a b r, log (nd s4) = a :: b :: r /\ entry_eqb a (s_e0 sn) = true /\ entry_eqb b (s_e1 sn) = true /\
-                              exists pre, log (nd s) = pre ++ a :: b :: r)).
-  { unfold s4, s3. destruct (clear || negb keep) eqn:CK.
-    - cbn. repeat split; auto.
-    - apply orb_false_elim in CK as [-> CK]. apply negb_false_iff in CK.
-      cbn. repeat split; auto; try discriminate. right.
-      unfold keep in CK. destruct (log (nd s2)) as [|a [|b r]]; try discriminate.
-      apply andb_prop in CK as [K1 K2]. exists a, b, r. repeat split; auto. now exists pre. }
-  destruct P4 as (Q1 & Q2 & Q3 & Q4 & Q5 & Q6 & Q7).
-  destruct (dyn (cf e)); [|auto 10].
-  pose proof (view_update_cluster (filter (fun x => negb (self_is x (nd s4))) (s_cluster sn)) s4) as VU.
-  apply view_inv in VU as (_ & _ & _ & U4 & U5 & U6 & U7 & _ & _ & U10 & _).
-  rewrite U4, U5, U6, U7, U10.
-  assert (CM : forall new s0, commit (nd (update_cluster new s0)) = commit (nd s0)).
-  { intros new s0. unfold update_cluster.
-    assert (A : forall l sa, commit (nd (fold_left (fun s a =>
-                 upd (fun n => n <| next_idx := aset a (last_idx (log n) + 1) (next_idx n) |>
-                                  <| match_idx := aset a 0 (match_idx n) |>) (emit (TAdd a) s)) l sa)) = commit (nd sa)).
-    { induction l as [|x l IH]; intros sa; cbn [fold_left]; auto. now rewrite IH. }
-    assert (B : forall l sa, commit (nd (fold_left (fun s r =>
-             emit (TDrop r) (upd (fun n => n <| next_idx := adel r (next_idx n) |>
-                                              <| match_idx := adel r (match_idx n) |>
-                                              <| tconn := sdel r (tconn n) |>) s)) l sa)) = commit (nd sa)).
-    { induction l as [|x l IH]; intros sa; cbn [fold_left]; auto. now rewrite IH. }
-    rewrite A. cbn. now rewrite B. }
-  rewrite CM. auto 10.
+  destruct (ProofsCommit.load_dump_loaded e clear s sn ST HB V) as [HL HA].
+  assert (HH : hist (nd (load_dump e clear s)) = s_hist sn /\ enabled_ver (nd (load_dump e clear s)) = s_ver sn).
+  { unfold load_dump. rewrite ST, HB.
+    destruct (self_ver (nd s) <? s_ver sn) eqn:E; [lia|]. cbv zeta.
+    match goal with |- context [update_cluster ?l ?s4] => set (s5 := s4) end.
+    assert (E5 : hist (nd s5) = s_hist sn /\ enabled_ver (nd s5) = s_ver sn).
+    { subst s5. repeat (match goal with |- context [if ?b then _ else _] => destruct b end;
+                        cbn [nd upd hist enabled_ver set]); split; reflexivity. }
+    clearbody s5. destruct E5 as [E5a E5b].
+    destruct (dyn (cf e)); [|auto].
+    match goal with |- context [if ?b then apply_membership _ _ _ else _] => destruct b end;
+      rewrite ?(ProofsCommitBase.fr_apply_membership hist), ?(ProofsCommitBase.fr_apply_membership enabled_ver)
+        by (intros; reflexivity);
+      rewrite (ProofsCommitBase.fr_update_cluster hist), (ProofsCommitBase.fr_update_cluster enabled_ver)
+        by (intros; reflexivity); auto. }
+  destruct HH as [H1 H2].
+  split; [exact H1|]. split; [exact H2|]. split; [exact HA|].
+  split; [apply (ProofsCommitBase.fr_load_dump self_ver); intros; reflexivity|].
+  split; [apply (ProofsCommitBase.fr_load_dump commit); intros; reflexivity|].
+  split; [exact HL|].
+  rewrite HL. destruct (ProofsCommit.snap_kept sn (log (nd s))) eqn:Ek; [|now left].
+  destruct (ProofsCommit.snap_kept_split sn _ Ek) as (pre & a & b & r & Hl & Hd & Ha & Hb).
+  right. exists a, b, r. rewrite Hd. repeat split; auto. now exists pre.
 Qed.
